@@ -9,24 +9,30 @@ ENC = ["src/methods/highest_lowest.rs: Highest/Lowest/HighestLowestDelta::{new,n
 def x_jobs():
     j = []
     for e, name in (("highest", "Highest"), ("lowest", "Lowest"), ("delta", "HighestLowestDelta"),
-                    ("highest_index", "HighestIndex"), ("lowest_index", "LowestIndex"), ("smm", "SMM")):
-        for n in (1, 2, 3, 4):
-            t = n + 2
-            tier = "q"
-            core = True
-            cost = {1: 1, 2: 2, 3: 15, 4: 60}[n]
-            if e == "smm" and n == 4:
-                t = 5
-                cost = 400
-                tier = "t"
-                core = False
-            j.append(X("c04_" + e, {"n": n, "t": t, "mode": "fp", "max_paths": 400000},
-                       "%s length %d, %d steps after an independent construction value: every order pattern of the inputs incl. ties and signed zeros ((value, zero-sign) encoding); output == definition (numeric ==, indices exact) at every step, next and peek" % (name, n, t),
-                       tier=tier, core=core, cost=cost, timeout=1500, encodes=ENC))
-        if e != "smm":
-            for n in (5, 6):
-                j.append(X("c04_" + e, {"n": n, "t": n + 2, "mode": "fp", "max_paths": 400000},
-                           "%s length %d, %d steps (deepening)" % (name, n, n + 2), tier="t", core=False, cost=300, timeout=1500, encodes=ENC))
+                    ("highest_index", "HighestIndex"), ("lowest_index", "LowestIndex")):
+        for n in (1, 2, 3, 4, 5, 6, 8):
+            t = n + 4
+            quick = n <= 5 or (n == 6 and e in ("highest", "lowest"))
+            args = {"n": n, "t": t, "mode": "fp", "max_paths": 400000}
+            if e.endswith("_index"):
+                # the arg-extremum trackers are decided faster by forking on order patterns than by merging
+                # (merged index terms: length 4, 8 steps took 1200 s; forked length 4, 6 steps: 1.3 s)
+                if n > 5:
+                    continue
+                t = n + 2
+                args = {"n": n, "t": t, "mode": "fp", "max_paths": 400000, "no_merge": 1}
+                quick = n <= 4
+            j.append(X("c04_" + e, args,
+                       "%s length %d, %d steps after an independent construction value: every order pattern of the inputs incl. ties and signed zeros ((value, zero-sign) encoding, symbolic branches merged); output == definition (numeric ==, indices exact) at every step, next and peek" % (name, n, t),
+                       tier="q" if quick else "t", core=quick, cost=3 + 2 * n * n, encodes=ENC))
+    for n in (1, 2, 3, 4):
+        t = n + 2
+        tier, core, cost = "q", True, {1: 1, 2: 5, 3: 150, 4: 600}[n]
+        if n == 4:
+            t, tier, core = 5, "t", False
+        j.append(X("c04_smm", {"n": n, "t": t, "mode": "fp", "max_paths": 400000},
+                   "SMM length %d, %d steps after an independent construction value: every order pattern incl. ties and signed zeros; output == median of the last n inputs at every step, next and peek" % (n, t),
+                   tier=tier, core=core, cost=cost, timeout=2400, encodes=ENC))
     return j
 
 
@@ -44,8 +50,8 @@ PROP = {
     "id": "C04",
     "jobs": jobs,
     "bounds": {
-        "quick": "X/fp: every method at lengths 1..4, n+2 steps, all order patterns of finite non-NaN inputs incl. ties and +0/-0; K: see harness list",
-        "thorough": "as quick plus lengths 5, 6 (path budget 400000; the largest completed length is in the samples) and SMM length 4 at 5 steps",
+        "quick": "X/fp: Highest/Lowest/Delta/HighestIndex/LowestIndex at lengths 1..5 (6), n+4 steps; SMM at lengths 1..3, n+2 steps; all order patterns of finite non-NaN inputs incl. ties and +0/-0; K: see harness list",
+        "thorough": "as quick plus lengths 6, 8 and SMM length 4 at 5 steps (best effort)",
     },
     "outside": ["lengths above 6 (path explosion: the number of order patterns grows factorially)", "NaN / infinite inputs (rejected by the methods' own asserts)",
                 "MedianAbsDev's arithmetic around the median is decided under C02"],
